@@ -161,7 +161,11 @@ def gate_steps(draw):
     if k < 26:
         return [{"op": "wait", "s": draw(st.sampled_from(WAITS))}]
     if k == 26:
-        return [{"op": "chpw", "u": draw(st.sampled_from(USERS)), "p": draw(st.sampled_from(NEWPW))}]
+        u = draw(st.sampled_from(USERS))
+        out = [{"op": "chpw", "u": u, "p": draw(st.sampled_from(NEWPW))}]
+        if draw(st.booleans()):  # try the previous password right afterwards
+            out += [draw(imap_login(None, u, "right"))] if draw(st.booleans()) else draw(pop_login(None, u, "right"))
+        return out
     if k == 27:
         return [{"op": "disable", "u": draw(st.sampled_from(USERS)), "on": draw(st.booleans())}]
     if k == 28:
@@ -299,12 +303,13 @@ def execute(trace) -> CaseResult:
                 v("C18.gate.access-without-password",
                   f"the user-process connection for '{acc['user']}' was opened while processing {what!r} on {conn.name}", sig)
 
-    async def attempt(conn, proto, u, p, data, desc, sigbase):
+    async def attempt(conn, proto, u, p, data, desc):
         """A LOGIN / PASS the model regards as an authentication attempt."""
         addr = conn.addr
         right = w.right(u, p)
         cls = "right" if right else pw_class(w, old_pws, u, p)
-        if KF_ESCAPE in OPEN and cls == "escape" and proto == "imap":
+        if KF_ESCAPE in OPEN and cls == "escape" and desc.get("qpw") and not trace.get("keep_known"):
+            # open finding: a quoted password whose raw form equals the stored password (steered away)
             res.excluded.append(KF_ESCAPE)
             return
         labels.add("pw:" + cls)
@@ -322,7 +327,7 @@ def execute(trace) -> CaseResult:
                            "model_locked": sorted(exp), "refused": not reached, "ok": answered_ok, "access": accessed,
                            "dur": round(w.loop.time() - t, 1)})
         if not done:
-            v("C18.harness.unfinished", f"{desc['show']} did not finish in 400 virtual s", proto)
+            res.blocked = "C06"  # not answered within 400 virtual s: another property's concern
         # -- wrong / empty / disabled never authenticates; no access without the right password
         if not right:
             seen["nonright"] = True
@@ -425,15 +430,16 @@ def execute(trace) -> CaseResult:
                 conn = await get_conn(imap, "imap", s["c"], IMAP_SLOTS)
                 tagn[0] += 1
                 tag = f"L{tagn[0]}"
-                data = tag.encode() + b" LOGIN " + enc_astring(s["u"], s["ue"]) + b" " + enc_astring(s["p"], s["pe"])
+                enc_p = enc_astring(s["p"], s["pe"])
+                data = tag.encode() + b" LOGIN " + enc_astring(s["u"], s["ue"]) + b" " + enc_p
                 show = data.decode("latin-1")[:90]
-                desc = {"tag": tag, "show": show}
+                desc = {"tag": tag, "show": show, "qpw": enc_p.startswith(b'"')}
                 labels.add("enc:" + s["pe"])
                 if conn.accessed:
                     labels.add("relayed-after-auth")
                     await non_attempt(conn, data, desc, show, "relayed")
                 else:
-                    await attempt(conn, "imap", s["u"], s["p"], data, desc, "login")
+                    await attempt(conn, "imap", s["u"], s["p"], data, desc)
             elif op in ("raw", "rawt"):
                 conn = await get_conn(imap, "imap", s["c"], IMAP_SLOTS)
                 line = s["line"]
@@ -455,7 +461,7 @@ def execute(trace) -> CaseResult:
                     labels.add("relayed-after-auth")
                     await non_attempt(conn, line.encode("latin-1"), {"show": line[:60]}, line, "relayed")
                 elif cmd == "PASS" and conn.pop_user and arg:
-                    await attempt(conn, "pop", conn.pop_user, arg, line.encode("latin-1"), {"show": line[:60]}, "pass")
+                    await attempt(conn, "pop", conn.pop_user, arg, line.encode("latin-1"), {"show": line[:60]})
                 else:
                     if cmd == "USER" and arg:
                         conn.pop_user = arg
@@ -468,7 +474,8 @@ def execute(trace) -> CaseResult:
         try:
             w.run(main())
         except Hang as e:
-            v("C18.harness.hang", f"front-end loop stuck: {e}", "")
+            res.blocked = "C06"  # the front-end loop is stuck: undecidable here, C06's concern
+            transcript.append({"hang": str(e)})
         hits = w.audit_hits()
         snap1 = w.snapshot()
         if hits:
